@@ -8,7 +8,7 @@ and evaluates the real method; the contract is then checked on the observed resu
 additionally asserts, where a layout is returned, that it passes validityerror (C11), that the
 input layouts are byte-for-byte unchanged and that the result is still the same after its inputs
 are dropped (C12), and that the call neither crashed nor hung (C12)."""
-import json, os, random, time
+import json, os, random, re, time
 
 from . import layouts as L, refops as R, run as nrun, forthref as FR
 
@@ -998,6 +998,142 @@ def fam_layout_independent(rng):
     return Case("both %d %s %s" % (len(lineA.split()), lineA, lineB), check, {"value": vals, "type": T})
 
 
+def ref_type(T):
+    """the documented (datashape-like) item type of an array whose elements have type T"""
+    k = T[0]
+    if k == "num":
+        return T[1]
+    if k == "string":
+        return "string" if T[1] == "string" else "bytes"      # (fixed-length strings print the same way in 1.4.0)
+    if k == "list":
+        return "var * " + ref_type(T[1])
+    if k == "regular":
+        return "%d * %s" % (T[2], ref_type(T[1]))
+    if k == "option":
+        inner = ref_type(T[1])
+        # (strings are list types: their option prints with brackets)
+        return "option[%s]" % inner if T[1][0] in ("list", "regular", "string") else "?" + inner
+    if k == "record":
+        if T[1] is None:
+            return "(" + ", ".join(ref_type(t) for t in T[2]) + ")"
+        return "{" + ", ".join('"%s": %s' % (kk, ref_type(t)) for kk, t in zip(T[1], T[2])) + "}"
+    if k == "union":
+        return "union[" + ", ".join(ref_type(t) for t in T[1]) + "]"
+    raise ValueError(T)
+
+
+def _depth_range(T):
+    """(min, max) number of list levels down to the leaves, the array itself counted as one"""
+    k = T[0]
+    if k in ("num",):
+        return 1, 1
+    if k == "string":
+        return 1, 1
+    if k in ("list", "regular"):
+        a, b = _depth_range(T[1])
+        return a + 1, b + 1
+    if k == "option":
+        return _depth_range(T[1])
+    if k == "record":
+        rs = [_depth_range(t) for t in T[2]] or [(1, 1)]
+        return min(r[0] for r in rs), max(r[1] for r in rs)
+    if k == "union":
+        rs = [_depth_range(t) for t in T[1]]
+        return min(r[0] for r in rs), max(r[1] for r in rs)
+    raise ValueError(T)
+
+
+def fam_types(rng):
+    """C17: the item type of an array is what its data are (documented type syntax), the type obtained from the form
+    equals the type obtained from the array, a range slice has the same type, an element taken out of a list-typed array
+    has the inner type, and depth / field queries agree with the value"""
+    T = L.gen_type(rng, rng.randint(0, 3), allow_union=True)
+    vals = [L.gen_value(rng, T) for _ in range(rng.randint(0, 4))]
+    lay = L.Enc(rng).encode(vals, T)
+    n = len(vals)
+    a = rng.choice([None] + list(range(-n - 1, n + 2)))
+    b = rng.choice([None] + list(range(-n - 1, n + 2)))
+    want = ref_type(T)
+    dmin, dmax = _depth_range(T)
+    f = lambda x: "_" if x is None else str(x)
+
+    def inner_type(t):
+        while t[0] == "option":
+            t = t[1]
+        return t
+
+    def check(r):
+        if r.status != "OK":
+            return ("value", "type queries on %r: %s" % (vals, r))
+        ta, tf, eq, tsl, elem, depth, mn, mx, isreg, nf, keys = r.value
+        if ta != want:
+            return ("value", "the array %r (element type %r) reports the type `%s`, documented syntax gives `%s`" % (vals, T, ta, want))
+        if tf != ta or not eq:
+            return ("value", "type from the form `%s` differs from the type of the array `%s`" % (tf, ta))
+        if tsl != ta:
+            return ("value", "range slice [%r:%r] has type `%s`, the array has `%s`" % (a, b, tsl, ta))
+        if (mn, mx) != (dmin, dmax):
+            return ("value", "minmax_depth reports %r for %r, the value has %r" % ((mn, mx), vals, (dmin, dmax)))
+        t0 = inner_type(T)
+        if n > 0 and vals[0] is not None and t0[0] in ("list", "regular") and isinstance(elem, str) and elem not in ("missing", "record", "scalar"):
+            if elem != ref_type(t0[1]):
+                return ("value", "the first element of the array has type `%s`, the array promises `%s`" % (elem, ref_type(t0[1])))
+        return None
+    return Case("typeinfo %s %s %s" % (f(a), f(b), lay.tokens()), check, {"value": vals, "type": T})
+
+
+def fam_field_slices(rng):
+    """C10: projecting a field commutes with every positional slice: x[..., "f", ...] gives the same as selecting first
+    and projecting afterwards (field placed at a random position among integers, ranges, ellipsis, newaxis)"""
+    for _ in range(20):
+        T = gen_pure(rng, rng.randint(0, 3), regular=0.25, leafrec=1.0)
+        leaf = T
+        while leaf[0] in ("list", "regular", "option"):
+            leaf = leaf[1]
+        if leaf[0] == "record":
+            break
+    else:
+        return None
+    vals = [L.gen_value(rng, T) for _ in range(rng.randint(0, 4))]
+    lay = L.Enc(rng).encode(vals, T)
+    levels = R._levels(("list", T))
+    items = []
+    for i in range(rng.randint(0, levels)):
+        items.append(("at", rng.randint(-3, 3)) if rng.random() < 0.35 else _rand_range(rng, 3))
+    key = rng.choice(leaf[1]) if leaf[1] is not None else str(rng.randrange(len(leaf[2])))
+    items.insert(rng.randint(0, len(items)), ("fld", key))
+    chk = expect_getitem(vals, T, items, "x[%r] of %r" % (items, vals))
+    if chk is None:
+        return None
+    return Case("getitem %s %s" % (slice_tokens(items), lay.tokens()), chk, {"value": vals, "type": T})
+
+
+def fam_setitem_field(rng):
+    """C10: after adding a field (RecordArray::setitem_field) reading it gives the value, every other field, the number
+    of records and their order are unchanged; records read as dicts with fields in declaration order"""
+    k = rng.randint(0, 2)
+    keys = ["x", "y"][:k]
+    istuple = k > 0 and rng.random() < 0.25
+    T = ("record", None if istuple else keys, [gen_pure(rng, rng.randint(0, 1)) for _ in range(k)])
+    n = rng.randint(0, 4)
+    if k == 0:
+        return None
+    vals = [L.gen_value(rng, T) for _ in range(n)]
+    lay = L.Enc(rng, allow_indexed=False).encode(vals, T)
+    if not isinstance(lay, L.RC):
+        return None
+    WT = gen_pure(rng, rng.randint(0, 1))
+    what = [L.gen_value(rng, WT) for _ in range(n)]
+    wl = L.Enc(rng).encode(what, WT)
+    if istuple:
+        ref = [tuple(list(v) + [w]) for v, w in zip(vals, what)]
+        line = "setitem_field %d %s %s" % (k, wl.tokens(), lay.tokens())
+    else:
+        ref = [dict(list(v.items()) + [("new", w)]) for v, w in zip(vals, what)]
+        line = "setitem_field new %s %s" % (wl.tokens(), lay.tokens())
+    return Case(line, expect_value(ref, "with_field(%r, %r)" % (vals, what), cmp=L.same), {"value": vals})
+
+
 def fam_convert(rng):
     """C02/C09: conversions among encodings keep the value: toListOffsetArray64, toRegularArray, option-encoding
     conversions, simplify_optiontype, shallow_simplify, deep_copy, project (drops exactly the missing values), bytemask"""
@@ -1508,6 +1644,7 @@ FAMILIES = {
     "reduce_ragged": (fam_reduce_ragged, ["C03"]),
     "reduce_rect": (fam_reduce_rect, ["C03"]),
     "tolist": (fam_tolist, ["C02"]),
+    "types": (fam_types, ["C17"]),
     "layout_independent": (fam_layout_independent, ["C02"]),
     "carry_range": (fam_carry_range, ["C02", "C01"]),
     "getitem_basic": (fam_getitem_basic, ["C01"]),
@@ -1524,7 +1661,9 @@ FAMILIES = {
     "concat": (fam_concat, ["C08"]),
     "astype": (fam_astype, ["C08"]),
     "simplify_union": (fam_simplify_union, ["C08"]),
-    "fields": (fam_fields, ["C01"]),
+    "fields": (fam_fields, ["C01", "C10"]),
+    "field_slices": (fam_field_slices, ["C10"]),
+    "setitem_field": (fam_setitem_field, ["C10"]),
     "combinations": (fam_combinations, ["C07"]),
     "sort": (fam_sort, ["C06"]),
     "argsort": (fam_argsort, ["C06"]),
@@ -1573,6 +1712,12 @@ def run_families(families, n, seed, asan=False):
     cases = []
     for f in families:
         cases += generate(f, n, seed)
+    # distinct and non-trivial: unique driver lines of cases whose generated top-level value has at least one element
+    # (cases that carry no "value", e.g. Forth programs and builder sequences, count by their line alone)
+    lines = set(c.line for c in cases if (("value" not in c.info) or (hasattr(c.info["value"], "__len__") and len(c.info["value"]) > 0)))
+    run_families.stats = {"cases": len(cases),
+                          "distinct": len(lines),
+                          "samples": [c.line[:400] for c in cases[::max(1, len(cases) // 5)][:6]]}
     res = nrun.run_cases(["%s %s" % (c.id, c.line) for c in cases], asan=asan)
     out = {f: [0, []] for f in families}
     for c in cases:
@@ -1668,6 +1813,10 @@ def engine(pid, tier, seed, known, families=None):
                                            "desc": "recorded input of %s: `%s` gives %s, the property requires %s" % (f["id"], c["line"], shown, c.get("expect", "no access outside the buffers")),
                                            "status": "refuted", "time": 0.0, "backend": "native", "model": shown[:1000], "auto": False})
                 out["replay"][oid] = {"input": c["line"], "engine": "N", "driver_line": "x " + c["line"]}
+    st_ = getattr(run_families, "stats", {})
+    out["coverage"]["engine_N_cases"] = st_.get("cases", 0)
+    out["coverage"]["engine_N_distinct"] = st_.get("distinct", 0)
+    out["coverage"]["engine_N_samples"] = st_.get("samples", [])
     out["coverage"]["engine_N_wall_s"] = round(time.time() - t0, 1)
     out["coverage"]["engine_N_families"] = {f: results[f][0] for f in fams}
     return out
